@@ -95,6 +95,89 @@ def check(sh, doc, edges, db, origin, suite, acyclic=True):
     return core
 
 
+def table_order(db):
+    return [tuple(s['name']) for s in sqlread.read(db.sql)['statements'] if s['kind'] == 'create_table']
+
+
+def model_only(sh, rng, n):
+    """'depends only on the model': after in-place edits or deletions the order must be the one a freshly built
+    database with the same content gets, and the CREATE TABLEs must be exactly the tables of the database"""
+    import copy
+    for k in range(n):
+        if sh.out_of_time():
+            break
+        shape = rng.choice(gen.GRAPH_SHAPES)
+        doc, edges = gen.graph_doc(rng, shape, rng.randint(2, 9))
+        # self references (a hierarchy table): legal, and the table must still be listed exactly once
+        for t_i, t in enumerate(doc.tables):
+            if rng.random() < 0.25:
+                c = am.Column(f'selfref{t_i}q', am.ColType('plain', 'int'))
+                c.inline_refs.append(am.InlineRef(rng.choice(['>', '<', '-']), t_i, t.columns[0].name))
+                t.columns.append(c)
+        db = apibuild.build(doc)
+        names = [qn(t) for t in doc.tables]
+        try:
+            first = table_order(db)
+        except Exception as e:  # noqa
+            cls, where = monitors.classify_exc(e)
+            sh.violation('render', f'sql-raises:{cls}@{where}', f'{cls}: {e}', None, {'suite': 'modelonly'})
+            continue
+        sh.case(['modelonly', edges, names, k], nontrivial=True, sample={'suite': 'modelonly', 'edges': edges, 'first_order': [list(x) for x in first]})
+        sh.count('obs.cases.modelonly')
+        joins = {qn(am.Table(doc.tables[r.t1].schema, f'{doc.tables[r.t1].name}_{doc.tables[r.t2].name}')) for r in doc.refs if r.kind == '<>'}
+        if sorted(o for o in first if o not in joins) != sorted(names):
+            sh.violation('perm', 'permutation:create-tables-differ-from-model', f'{first} vs {names} (self references present)',
+                         {'kind': 'order', 'text': surface.render(doc, 0, surface.CANON), 'edges': edges, 'tables': [list(x) for x in names]}, {'suite': 'modelonly'})
+            continue
+        # (1) edit in place: flip inline-ness / kind of references, then compare with a fresh build of the edited model
+        d2 = copy.deepcopy(doc)
+        flips = 0
+        inl = [r for r in db.refs if r.inline]
+        rng.shuffle(inl)
+        want_inline = {}
+        for r in inl[:rng.randint(1, 3)]:
+            r.inline = False
+            flips += 1
+        for r in db.refs:
+            if rng.random() < 0.3 and r.type in ('>', '<'):
+                r.type = '<' if r.type == '>' else '>'
+                flips += 1
+        try:
+            after = table_order(db)
+            from pv.clone import clone
+            fresh = table_order(clone(db))
+        except Exception as e:  # noqa
+            cls, where = monitors.classify_exc(e)
+            sh.violation('render', f'sql-raises-after-edit:{cls}@{where}', f'{cls}: {e}', None, {'suite': 'modelonly'})
+            continue
+        sh.count('obs.edit_then_render')
+        if after != fresh:
+            sh.violation('det', 'model-only:order-after-edit-differs-from-fresh-build',
+                         f'after {flips} in-place reference edits the order is {after}, a freshly built equal database gives {fresh}',
+                         {'kind': 'modelonly', 'text': surface.render(doc, 0, surface.CANON)}, {'suite': 'modelonly'})
+        # (2) delete a table (references are not cascaded): the script must list exactly the remaining tables
+        if len(db.tables) > 1:
+            victim = rng.choice(db.tables)
+            vq = (victim.name,) if victim.schema == 'public' else (victim.schema, victim.name)
+            db.delete(victim)
+            try:
+                rest = table_order(db)
+            except Exception as e:  # noqa
+                cls, where = monitors.classify_exc(e)
+                sh.count('obs.delete_then_render_raised.' + cls)
+                if cls not in ('TableNotFoundError',):
+                    sh.violation('perm', f'model-only:sql-raises-after-delete:{cls}', f'after deleting {vq}: {cls}: {e}',
+                                 {'kind': 'modelonly', 'text': surface.render(doc, 0, surface.CANON)}, {'suite': 'modelonly'})
+                continue
+            sh.count('obs.delete_then_render')
+            remaining = [(t.name,) if t.schema == 'public' else (t.schema, t.name) for t in db.tables]
+            got = [o for o in rest if o not in joins]
+            if sorted(got) != sorted(remaining):
+                sh.violation('perm', 'model-only:create-tables-after-delete-differ-from-tables',
+                             f'after deleting {vq}: CREATE TABLE {got} vs db.tables {remaining}',
+                             {'kind': 'modelonly', 'text': surface.render(doc, 0, surface.CANON)}, {'suite': 'modelonly'})
+
+
 def plan(tier, seed):
     return [{'shard': i, 'of': 16, 'hashseed': (seed * 16 + i) % 4294967295} for i in range(16)]
 
@@ -121,6 +204,7 @@ def run_shard(spec, tier, seed, budget_s):
             sh.count('obs.det_renders')
     # ---- graph workload
     rng = random.Random(f'{seed}-graphs-{i}')
+    model_only(sh, random.Random(f'{seed}-modelonly-{i}'), {'quick': 25, 'thorough': 600}[tier])
     k = 0
     target = {'quick': 150, 'thorough': 4000}[tier]
     while k < target and not sh.out_of_time():
@@ -164,7 +248,7 @@ def finalize(agg):
 def conclusive(agg, tier):
     c = agg['counters']
     out = []
-    for k in ('obs.edges_checked', 'obs.det_documents_compared', 'obs.cases.cyclic', 'obs.cases.samebare',
+    for k in ('obs.cases.modelonly', 'obs.edit_then_render', 'obs.delete_then_render', 'obs.edges_checked', 'obs.det_documents_compared', 'obs.cases.cyclic', 'obs.cases.samebare',
               'obs.cases.dag.chain', 'obs.cases.dag.tree', 'obs.cases.dag.random_dag', 'obs.det_renders'):
         if not c.get(k):
             out.append(f'{k} is zero')
